@@ -12,7 +12,10 @@ TRUSTED_BASE = [
 EDGE_RULE = ("exhaustive: breadth-first exploration of the implementation's abstract state space (state = dump of all adjacency lists), "
              "every (state, operation) pair executed once as its own case on both sides; random: seeded histories with dump after every call. "
              "A case is distinct by its (state-reaching history, operation) resp. its seed; non-trivial = it executes at least one edge operation. "
-             "distinct_nontrivial = explored (state, operation) pairs + random histories.")
+             "distinct_nontrivial = explored (state, operation) pairs + random histories. Beyond these: histories that grow past the "
+             "list-growth thresholds, hub histories (a node of degree 20-150 with two-way neighbours, parallel edges, self-loops, removals from the "
+             "middle of its lists, isolate), the extremes of the value types, and the same histories on the w* flavours (a non-Copy, heap-owning key "
+             "type whose Hash has two values) and the z* flavours (zero-sized node and edge values).")
 
 NOT_YET = {}
 
@@ -57,7 +60,11 @@ PROPS = {
 SEARCH_RULE = ("enumerated: every connect sequence (insertion order matters) on <=3 (quick) / <=4 (thorough) nodes up to the edge bound, each with every root, "
                "every target, and reject-sets (none / each single edge; all subsets in the thorough tier); random: seeded graphs up to 40 nodes "
                "(sparse, dense, DAG, ring, disconnected, self-loops, parallel edges). One case = one graph with all its requests; a request is "
-               "non-trivial if it runs a traversal. distinct_nontrivial = number of graph cases.")
+               "non-trivial if it runs a traversal. distinct_nontrivial = number of graph cases. Every generator also produces: builder reuse "
+               "(several searches on one builder object, retargeting, graph changes between two calls), the builder's configuration calls in every "
+               "order (kind~n, before or after the closure is attached, conflicting priority calls), root handles obtained in different ways (#via), "
+               "graphs of 900-1400 nodes, closed chains of 1100-1600 nodes, hubs of degree up to 90, the extremes of the value types, and the "
+               "searches/orderings on the w* (colliding key hashes) and z* (zero-sized values) flavours.")
 
 def _search(pid, oracles, theorems, text, technique):
     PROPS[pid] = {
@@ -96,7 +103,10 @@ _search("C10", ["c10"], [("GdslModel.Props.C10", "G.Order." + t) for t in ["node
 CONT_RULE = ("enumerated small inputs (all digraphs on <=3/4 nodes for scc; all connect sequences on <=3 nodes for serde; all single structural "
              "mutations of seed documents; all container histories over a small alphabet) plus seeded random ones; every order-dependent call is "
              "annotated with the hash map's iteration order observed in the implementation and the model is evaluated under that order. One case = "
-             "one graph/document/history; distinct_nontrivial = number of cases.")
+             "one graph/document/history; distinct_nontrivial = number of cases. Also: scc across graph changes on one container and on "
+             "containers of 1100-1700 nodes; serialisation after container histories and of documents with 257-1030 edge records; raw JSON and "
+             "CBOR bytes (every single-edit class) compared exactly with the byte-level models; deserialize_in_place into populated graphs; long "
+             "runs of one source; two containers sharing nodes; containers as sole owners of connected nodes; the w* and z* flavours.")
 _CONT = {
  "C11": ([("GdslModel.Props.C11", "G.Scc." + t) for t in ["partition", "sound", "complete", "order_independent", "fuel_enough"]],
          "Machine-checked proof (Lean 4) of Kosaraju's algorithm as implemented (first pass: postorder forest threaded through the visited filter in hash-map order; second pass: transposed preorder among unassigned nodes in decreasing finishing position): for every iteration order of a closed container the result is a partition of the members, two nodes share a component exactly when each reaches the other, and as a set of sets it does not depend on the order - via the component-root lemma on the non-deterministic DFS relation. Tied to digraph/sync_digraph by exact correspondence under the annotated hash order (all digraphs on <=3 (quick) / <=4 (thorough) nodes x 4 container instances and insertion orders, random to 30 nodes) and a mutual-reachability partition oracle on the real output.",
